@@ -200,6 +200,8 @@ def run_property(pid, tier, seed, kernel_filter=None):
             print('VIOLATION property=%s replay=%s' % (pid, path))
             print('  what: %s' % f.what)
         rc = 1
+    if kernel_filter and not os.environ.get('VERIF_EVIDENCE_DIR'):
+        os.environ['VERIF_EVIDENCE_DIR'] = os.path.join(WORK, 'evidence-partial')      # a run restricted to some kernels must not overwrite the evidence of the registered check
     write_evidence(pid, tier, seed, results, ctx, time.time() - t0, len(violations), known_hits, unconfirmed)
     ctx.cleanup()
     return rc
